@@ -352,6 +352,11 @@ func judgeLines(lines []string, allowed map[string]int, allowDefaults bool) stri
 		if i <= 0 {
 			return fmt.Sprintf("line without a field name: %q", ln)
 		}
+		if !isToken(ln[:i]) {
+			// SP / HTAB at the start of a line continues the previous field for an obs-fold aware reader and is refused by a
+			// strict one; any other non-token byte makes the line no field line at all
+			return fmt.Sprintf("the field name of the line %q is not a token (a strict parser refuses the message, a lenient one folds it into the previous field)", ln)
+		}
 		name := strings.ToLower(ln[:i])
 		seen[name]++
 		if allowDefaults && defaults[name] {
@@ -365,6 +370,22 @@ func judgeLines(lines []string, allowed map[string]int, allowDefaults bool) stri
 		}
 	}
 	return ""
+}
+
+func isToken(s string) bool {
+	if s == "" {
+		return false
+	}
+	for i := 0; i < len(s); i++ {
+		b := s[i]
+		switch {
+		case b >= '0' && b <= '9', b >= 'a' && b <= 'z', b >= 'A' && b <= 'Z':
+		case strings.IndexByte("!#$%&'*+-.^_`|~", b) >= 0:
+		default:
+			return false
+		}
+	}
+	return true
 }
 
 // judgeMessage: msg must be startLine CRLF fields CRLF CRLF [chunked body "0" CRLF trailer fields CRLF] and nothing else.
